@@ -473,3 +473,12 @@ def cfloat_conv_source_is_double_subnormal(c):
 @pred
 def pure_posit8_fromd_via_float(c):
     return impl_is_zero_or_nar(c) or off_by_one_encoding(c)
+
+
+@pred
+def lns_nan_source_with_payload(c):
+    """float/double NaN source whose payload is not one of the hard-coded patterns; the lns result is not the NaN encoding"""
+    x, e, f, fb = _src_double(c)
+    n = cfg_ints(c)[0]
+    i = ints(c['impl'])
+    return x != x and len(i) == 1 and i[0] != (1 << (n - 1)) + (1 << (n - 2))
